@@ -47,7 +47,7 @@ ASSUMPTIONS = [
 VARIANTS = {"g": render.VARIANTS["g"], "d": {}}
 PROFILE = {"p_describe": 0.15, "p_local_classes": 0.4, "allow_regex_nokeep_single": False, "allow_raw_callbacks": False, "p_default": 0.4, "p_instance_proto": 0.6,
            "p_rep": 0.28, "p_opt": 0.12, "p_move": 0.08, "p_backward_at": 0.0,
-           "kinds": {"int": 30, "data": 22, "bits": 8, "ref": 24, "sel": 12, "em": 2}}
+           "kinds": {"int": 30, "data": 22, "bits": 8, "ref": 22, "sel": 20, "em": 2}, "p_sel_all_packets": 0.6}
 
 
 # ------------------------------------------------------------------------------------------ part A
@@ -214,13 +214,33 @@ def history_part(run, bench, rng, nops):
     lives = []
     history = []
     list_fields = [f for f in fam["decls"][root]["fields"] if "rep" in f and f["t"] in ("int", "data")]
-    for step in range(nops):
+    # selectors with several packet alternatives: start with parses that select A, B, A (same class variant)
+    forced = []
+    for f in fam["decls"][root]["fields"]:
+        if f["t"] == "sel" and sum(1 for o in f["options"].values() if o["t"] == "ref") >= 2:
+            groups = {}
+            for raw, pv in donors:
+                key = pv.vals.get(f["key"])
+                o = f["options"].get(str(key))
+                if o is not None and o["t"] == "ref":
+                    groups.setdefault(key, []).append((raw, pv))
+            ks = sorted(groups)
+            if len(ks) >= 2:
+                vv = rng.choice(["g", "d"])
+                forced = [(vv, rng.choice(groups[ks[0]])), (vv, rng.choice(groups[ks[1]])), (vv, rng.choice(groups[ks[0]]))]
+                run.count("forced_aba_selector_parses")
+            break
+    for step in range(nops + len(forced)):
         ops = ["construct", "unpack"] if len(lives) < 3 else ["construct", "unpack", "set_leaf", "set_leaf", "list_append", "set_nested", "pack", "repr", "replace_unpack"]
         if len(lives) >= 6:
             ops = [o for o in ops if o not in ("construct", "unpack")]
         op = rng.choice(ops)
         acting = None
         v = rng.choice(["g", "d"])
+        forced_donor = None
+        if forced:
+            v, forced_donor = forced.pop(0)
+            op = "unpack"
         cls = bench.root(v)
         try:
             if op == "construct":
@@ -243,7 +263,7 @@ def history_part(run, bench, rng, nops):
             elif op in ("unpack", "replace_unpack"):
                 if not donors:
                     continue
-                raw, pv = rng.choice(donors)
+                raw, pv = forced_donor if forced_donor is not None else rng.choice(donors)
                 r = harness.lib_unpack(cls, raw)
                 if r.status != "ok":
                     continue
